@@ -43,34 +43,70 @@ Proof.
 Qed.
 
 (* ------------------------------------------------------------------ fresh reads never crash *)
-Lemma fresh_read_no_crash g fs p d : fresh_read g fs p d <> RCrash.
+Lemma fresh_read_no_crash g fs p d k : fresh_read g fs p d k <> RCrash.
 Proof.
   unfold fresh_read. destruct (nth (fid g p) fs None) as [c|]; [|discriminate].
-  destruct (dtype_eqb (k_dt c) d); [discriminate|]. destruct (_ <=? _); discriminate.
+  destruct (dtype_eqb (k_dt c) d); [destruct (is_int d && negb (Nat.eqb (k_scl c) k)); discriminate|].
+  destruct (_ <=? _); discriminate.
 Qed.
 Lemma denote_no_crash g fs im : denote g fs im <> RCrash.
 Proof. unfold denote. destruct (i_src im); [discriminate|apply fresh_read_no_crash]. Qed.
 
 (* ------------------------------------------------------------------ (1) a save never crashes *)
-Definition is_write (o : op) : bool := match o with Save _ _ | ToBytes _ | SaveFull _ => true | _ => false end.
+Definition is_write (o : op) : bool :=
+  match o with Save _ _ | SaveU8 _ _ | ToBytes _ | SaveFull _ => true | _ => false end.
+
+(* the header dtype used for this save only (SaveU8) *)
+Definition with_hdt (im : image) (hd : option dtype) : image :=
+  match hd with Some d => mkI (i_src im) (i_fmt im) d (i_aff im) (i_cache im) | None => im end.
+
+(* inversion of a save (with the fix): refused with nothing changed, or one file replaced *)
+Lemma do_save_cases g w s t hd : g_fix g = true ->
+  (exists e, do_save g w s t hd = (w, ORefused e))
+  \/ (exists im0 od v,
+        img_at w s = Some im0 /\ (fid g t < length (w_fs w))%nat
+        /\ out_dtype g (with_hdt im0 hd) (pi_fmt (pinfo_of g t)) = Some od
+        /\ denote g (w_fs w) (reshaped g (with_hdt im0 hd) (pi_fmt (pinfo_of g t))) = RVal v
+        /\ writer_refuses g (pi_fmt (pinfo_of g t)) od = false
+        /\ do_save g w s t hd =
+           (mkW (upd (fid g t) (Some (written g (pi_fmt (pinfo_of g t)) od v (i_aff im0))) (w_fs w)) (w_imgs w) (w_dead w),
+            OSaved t (k_val (written g (pi_fmt (pinfo_of g t)) od v (i_aff im0))) od (i_aff im0)
+                   (k_scl (written g (pi_fmt (pinfo_of g t)) od v (i_aff im0))))).
+Proof.
+  intros Hf. unfold do_save. destruct (img_at w s) as [im0|] eqn:Hi; [|left; eauto].
+  destruct (fid g t <? length (w_fs w))%nat eqn:Hlt; cbn [negb]; [|left; eauto]. apply Nat.ltb_lt in Hlt.
+  fold (with_hdt im0 hd).
+  destruct (out_dtype g (with_hdt im0 hd) (pi_fmt (pinfo_of g t))) as [od|] eqn:Ho; [|left; eauto].
+  pose proof (denote_no_crash g (w_fs w) (reshaped g (with_hdt im0 hd) (pi_fmt (pinfo_of g t)))) as Hn.
+  destruct (denote g (w_fs w) (reshaped g (with_hdt im0 hd) (pi_fmt (pinfo_of g t)))) as [v| |] eqn:Hd;
+    [|left; eauto|congruence].
+  destruct (writer_refuses g (pi_fmt (pinfo_of g t)) od) eqn:Hw; [left; eauto|].
+  rewrite Hf, andb_false_r. right. exists im0, od, v.
+  assert (Ha : i_aff (with_hdt im0 hd) = i_aff im0) by (destruct hd; reflexivity). rewrite Ha.
+  repeat split; assumption.
+Qed.
+
+Definition save_op (o : op) : option (nat * nat * option dtype) :=
+  match o with Save s t => Some (s, t, None) | SaveU8 s t => Some (s, t, Some U1) | _ => None end.
+
+Lemma step_save g w o s t hd : w_dead w = false -> save_op o = Some (s, t, hd) -> step g w o = do_save g w s t hd.
+Proof. intros Hd H. unfold step. rewrite Hd. destruct o; inversion H; subst; reflexivity. Qed.
 
 Lemma save_step_no_crash g w o : g_fix g = true -> is_write o = true -> snd (step g w o) <> OCrash.
 Proof.
-  intros Hf Ho. unfold step. destruct (w_dead w); [discriminate|].
+  intros Hf Ho. destruct (w_dead w) eqn:Hdead; [unfold step; rewrite Hdead; discriminate|].
+  assert (SV : forall s t hd, snd (do_save g w s t hd) <> OCrash).
+  { intros s t hd. destruct (do_save_cases g w s t hd Hf) as [[e E]|(im0 & od & v & _ & _ & _ & _ & _ & E)];
+      rewrite E; discriminate. }
   destruct o; try discriminate.
-  - (* Save *)
-    unfold do_save. destruct (img_at w s) as [im|]; [|discriminate].
-    destruct (negb (fid g p <? length (w_fs w))%nat); [discriminate|].
-    destruct (out_dtype g im (pi_fmt (pinfo_of g p))) as [od|]; [|discriminate].
-    pose proof (denote_no_crash g (w_fs w) im) as Hn.
-    destruct (denote g (w_fs w) im) as [v| |]; [|discriminate|congruence].
-    rewrite Hf. rewrite andb_false_r. discriminate.
+  - rewrite (step_save g w (Save s p) s p None Hdead eq_refl). apply SV.
+  - rewrite (step_save g w (SaveU8 s p) s p (Some U1) Hdead eq_refl). apply SV.
   - (* SaveFull *)
-    destruct (img_at w s) as [im|]; [|discriminate].
+    unfold step. rewrite Hdead. destruct (img_at w s) as [im|]; [|discriminate].
     pose proof (denote_no_crash g (w_fs w) im) as Hn.
     destruct (denote g (w_fs w) im); try discriminate; congruence.
   - (* ToBytes *)
-    unfold do_tobytes. destruct (img_at w s) as [im|]; [|discriminate].
+    unfold step. rewrite Hdead. unfold do_tobytes. destruct (img_at w s) as [im|]; [|discriminate].
     pose proof (denote_no_crash g (w_fs w) im) as Hn.
     destruct (i_fmt im); try discriminate; destruct (denote g (w_fs w) im); try discriminate; congruence.
 Qed.
@@ -83,28 +119,45 @@ Proof.
 Qed.
 
 (* ------------------------------------------------------------------ (2) every file written decodes to what the image held *)
+(* [written g tf d v a]: value v stored with dtype d (scale factors recomputed from v and d when d is an
+   integer type); it decodes to v, except that MGH, which never scales, clips data of both signs to uint8 *)
+Lemma written_val g tf d v a :
+  ~ (g_mixed g = true /\ d = U1 /\ tf = Mgh) -> k_val (written g tf d v a) = v.
+Proof.
+  intros H. unfold written. destruct (is_int d); [|reflexivity].
+  destruct (fmt_eqb tf Mgh) eqn:Ef.
+  - cbn [k_val]. destruct (g_mixed g && dtype_eqb d U1) eqn:E; [|reflexivity].
+    exfalso. apply H. apply andb_prop in E as [E1 E2]. apply dtype_eqb_eq in E2.
+    repeat split; try assumption. destruct tf; try discriminate; reflexivity.
+  - destruct v; reflexivity.
+Qed.
+Lemma written_dt_aff g tf d v a : k_dt (written g tf d v a) = d /\ k_aff (written g tf d v a) = a.
+Proof. unfold written. destruct (is_int d); [destruct (fmt_eqb tf Mgh); [|destruct v]|]; split; reflexivity. Qed.
+
 Definition decodes (g : cfg) (w : world) (o : op) (w' : world) (x : out) : Prop :=
-  forall s t v d a, o = Save s t -> x = OSaved t v d a ->
-    exists im, img_at w s = Some im
-      /\ denote g (w_fs w) im = RVal v                      (* the data the image had at that save *)
-      /\ out_dtype g im (pi_fmt (pinfo_of g t)) = Some d
-      /\ a = i_aff im                                         (* and its affine *)
-      /\ file_at w' (fid g t) = Some (mkK v d a)              (* is what the file behind the target name now holds *)
+  forall s t hd v d a k, save_op o = Some (s, t, hd) -> x = OSaved t v d a k ->
+    exists im0 v0, img_at w s = Some im0
+      (* the data the image had at that save (read through the class conversion) *)
+      /\ denote g (w_fs w) (reshaped g (with_hdt im0 hd) (pi_fmt (pinfo_of g t))) = RVal v0
+      /\ out_dtype g (with_hdt im0 hd) (pi_fmt (pinfo_of g t)) = Some d
+      /\ a = i_aff im0                                         (* and its affine *)
+      (* are what the file behind the target name now holds, in dtype d with freshly computed factors *)
+      /\ file_at w' (fid g t) = Some (written g (pi_fmt (pinfo_of g t)) d v0 a)
+      /\ v = k_val (written g (pi_fmt (pinfo_of g t)) d v0 a) /\ k = k_scl (written g (pi_fmt (pinfo_of g t)) d v0 a)
       /\ (forall f, f <> fid g t -> file_at w' f = file_at w f)  (* no other file is touched *)
       /\ w_imgs w' = w_imgs w.                                (* and the image objects are as before *)
 
 Lemma decodes_step g w o : g_fix g = true -> decodes g w o (fst (step g w o)) (snd (step g w o)).
 Proof.
-  intros Hf s t v d a -> Hx. unfold step in *. destruct (w_dead w); [discriminate|].
-  unfold do_save in *. destruct (img_at w s) as [im|] eqn:Hi; [|discriminate].
-  destruct (fid g t <? length (w_fs w))%nat eqn:Hlt; cbn [negb] in *; [|discriminate].
-  apply Nat.ltb_lt in Hlt.
-  destruct (out_dtype g im (pi_fmt (pinfo_of g t))) as [od|] eqn:Ho; [|discriminate].
-  destruct (denote g (w_fs w) im) as [v0| |] eqn:Hd; try discriminate.
-  rewrite Hf, andb_false_r in *. cbn [fst snd] in *. inversion Hx; subst.
-  exists im. split; [reflexivity|]. split; [exact Hd|]. split; [exact Ho|]. split; [reflexivity|].
-  split; [unfold file_at; cbn [w_fs]; now apply nth_upd_same|]. split; [|reflexivity].
-  intros p Hp. unfold file_at; cbn [w_fs]. now apply nth_upd_other.
+  intros Hf s t hd v d a k Hs Hx.
+  destruct (w_dead w) eqn:Hdead; [unfold step in Hx; rewrite Hdead in Hx; discriminate|].
+  rewrite (step_save g w o s t hd Hdead Hs) in *.
+  destruct (do_save_cases g w s t hd Hf) as [[e E]|(im0 & od & v0 & Hi & Hlt & Ho & Hd & Hw & E)];
+    rewrite E in *; cbn [fst snd] in *; [discriminate|].
+  inversion Hx; subst. exists im0, v0.
+  split; [exact Hi|]. split; [exact Hd|]. split; [exact Ho|]. split; [reflexivity|].
+  split; [unfold file_at; cbn [w_fs]; now apply nth_upd_same|]. split; [reflexivity|]. split; [reflexivity|].
+  split; [|reflexivity]. intros f Hne. unfold file_at; cbn [w_fs]. now apply nth_upd_other.
 Qed.
 
 Lemma files_decode g ops w : g_fix g = true -> r_all (decodes g) g w ops.
@@ -114,28 +167,45 @@ Proof.
 Qed.
 
 (* ------------------------------------------------------------------ (3) the image stays usable after a save *)
-(* the S-C09c case: the image is a proxy of the target itself and the dtype written differs from
-   the dtype the proxy copied at load *)
-Definition stale_after (g : cfg) (im : image) (t : nat) (d : dtype) : Prop :=
-  exists p ds mm, i_src im = SProxy p ds mm /\ fid g p = fid g t /\ d <> ds.
+(* the S-C09c case: the image is a proxy of the target file itself, and the dtype written differs from the
+   dtype the proxy copied at load, or (integer storage) the re-computed scale factors differ from its own *)
+Definition stale_after (g : cfg) (im : image) (t : nat) (c : content) : Prop :=
+  exists p ds ks mm, i_src im = SProxy p ds ks mm /\ fid g p = fid g t
+    /\ (k_dt c <> ds \/ (is_int ds = true /\ k_scl c <> ks)).
 
-Lemma usable_after_save g w s t v d a im :
-  g_fix g = true -> snd (step g w (Save s t)) = OSaved t v d a -> img_at w s = Some im ->
-  ~ stale_after g im t d ->
-  img_at (fst (step g w (Save s t))) s = Some im
-  /\ denote g (w_fs (fst (step g w (Save s t)))) im = RVal v.
+Lemma usable_after_save g w s t hd v d a k im0 :
+  g_fix g = true -> g_reshape_ok g = true ->
+  snd (do_save g w s t hd) = OSaved t v d a k -> img_at w s = Some im0 ->
+  ~ (g_mixed g = true /\ d = U1 /\ pi_fmt (pinfo_of g t) = Mgh) ->
+  (forall c, file_at (fst (do_save g w s t hd)) (fid g t) = Some c -> ~ stale_after g im0 t c) ->
+  img_at (fst (do_save g w s t hd)) s = Some im0
+  /\ denote g (w_fs (fst (do_save g w s t hd))) im0 = RVal v.
 Proof.
-  intros Hf Hx Him Hns.
-  destruct (decodes_step g w (Save s t) Hf s t v d a eq_refl Hx) as (im' & Him' & Hd & Ho & Ha & Hft & Hoth & Himgs).
-  rewrite Him in Him'. inversion Him'; subst im'. split.
-  - unfold img_at. rewrite Himgs. exact Him.
-  - unfold denote in *. destruct (i_src im) as [v0|p ds mm] eqn:Es; [exact Hd|].
-    destruct (Nat.eq_dec (fid g p) (fid g t)) as [He|Hne].
-    + assert (d = ds) as ->.
-      { destruct (dtype_eqb d ds) eqn:E; [now apply dtype_eqb_eq|].
-        exfalso. apply Hns. exists p, ds, mm. repeat split; try assumption. intros ->. now rewrite dtype_eqb_refl in E. }
-      unfold fresh_read. rewrite He. unfold file_at in Hft. rewrite Hft. cbn [k_dt k_val]. now rewrite dtype_eqb_refl.
-    + unfold fresh_read in *. specialize (Hoth (fid g p) Hne). unfold file_at in Hoth. rewrite Hoth. exact Hd.
+  intros Hf Hr Hx Him Hclip Hns.
+  destruct (do_save_cases g w s t hd Hf) as [[e E]|(im1 & od & v0 & Hi & Hlt & Ho & Hd & Hw & E)];
+    rewrite E in *; cbn [fst snd] in *; [discriminate|].
+  rewrite Him in Hi. inversion Hi; subst im1. inversion Hx; subst.
+  set (c := written g (pi_fmt (pinfo_of g t)) d v0 (i_aff im0)) in *.
+  assert (Hv : k_val c = v0) by (apply written_val; exact Hclip).
+  destruct (written_dt_aff g (pi_fmt (pinfo_of g t)) d v0 (i_aff im0)) as [Hdt _]. fold c in Hdt.
+  assert (Hfile : file_at (mkW (upd (fid g t) (Some c) (w_fs w)) (w_imgs w) (w_dead w)) (fid g t) = Some c)
+    by (unfold file_at; cbn [w_fs]; now apply nth_upd_same).
+  specialize (Hns c Hfile).
+  split; [exact Him|]. rewrite Hv.
+  (* the data read before the save: the class conversion does not change what the proxy is *)
+  assert (Hd0 : denote g (w_fs w) im0 = RVal v0).
+  { unfold reshaped in Hd. rewrite Hr in Hd. cbn [negb] in Hd. rewrite andb_false_r in Hd.
+    unfold denote in *. destruct hd; exact Hd. }
+  unfold denote in *. cbn [w_fs]. destruct (i_src im0) as [vv|p ds ks mm] eqn:Es; [exact Hd0|].
+  unfold fresh_read in *. destruct (Nat.eq_dec (fid g p) (fid g t)) as [He|Hne].
+  - rewrite He, nth_upd_same by exact Hlt.
+    destruct (dtype_eqb (k_dt c) ds) eqn:Ed.
+    + destruct (is_int ds && negb (Nat.eqb (k_scl c) ks)) eqn:Ek; [|now rewrite Hv].
+      exfalso. apply Hns. exists p, ds, ks, mm. repeat split; try assumption. right.
+      apply andb_prop in Ek as [E1 E2]. split; [exact E1|]. intros Heq. rewrite Heq, Nat.eqb_refl in E2. discriminate.
+    + exfalso. apply Hns. exists p, ds, ks, mm. repeat split; try assumption. left.
+      intros Heq. rewrite Heq, dtype_eqb_refl in Ed. discriminate.
+  - rewrite nth_upd_other by exact Hne. exact Hd0.
 Qed.
 
 (* ------------------------------------------------------------------ (4) no crash when no save shortens a file under a live map *)
@@ -153,22 +223,22 @@ Definition short_for (g : cfg) (t : nat) (od : dtype) (oi : option image) : bool
   match oi with
   | Some im => match i_cache im with
                | CAlias p d => Nat.eqb (fid g p) (fid g t)
-                               && (roundup (flen g p (mkK None od 0%nat)) (g_page g) <? needed g p d)
+                               && (roundup (flen g p (mkK None od 0%nat 0%nat)) (g_page g) <? needed g p d)
                | _ => false
                end
   | None => false
   end.
 Definition hazard (g : cfg) (w : world) (o : op) : bool :=
-  match o with
-  | Save s t =>
+  match save_op o with
+  | Some (s, t, hd) =>
     match img_at w s with
-    | Some im => match out_dtype g im (pi_fmt (pinfo_of g t)) with
+    | Some im => match out_dtype g (with_hdt im hd) (pi_fmt (pinfo_of g t)) with
                  | Some od => existsb (short_for g t od) (w_imgs w)
                  | None => false
                  end
     | None => false
     end
-  | _ => false
+  | None => false
   end.
 
 Fixpoint no_hazard (g : cfg) (w : world) (ops : list op) : Prop :=
@@ -205,8 +275,8 @@ Proof.
   - eapply B; eauto.
 Qed.
 
-Lemma fresh_alias_backed g fs p d v :
-  cfg_wf g -> fresh_read g fs p d = RVal v -> alias_read g fs p d <> RCrash.
+Lemma fresh_alias_backed g fs p d k v :
+  cfg_wf g -> fresh_read g fs p d k = RVal v -> alias_read g fs p d <> RCrash.
 Proof.
   intros [Hp Hf] H. unfold fresh_read, alias_read in *. destruct (nth (fid g p) fs None) as [c|]; [|discriminate].
   assert (Hle : needed g p d <= flen g p c).
@@ -223,6 +293,33 @@ Lemma step_backed g w o :
   snd (step g w o) <> OCrash /\ backed g (fst (step g w o)).
 Proof.
   intros Wf Hf B Hz. unfold step. destruct (w_dead w) eqn:Hdead; [split; [discriminate|exact B]|].
+  assert (SV : forall s t hd,
+             match img_at w s with
+             | Some im => match out_dtype g (with_hdt im hd) (pi_fmt (pinfo_of g t)) with
+                          | Some od => existsb (short_for g t od) (w_imgs w)
+                          | None => false
+                          end
+             | None => false
+             end = false ->
+             snd (do_save g w s t hd) <> OCrash /\ backed g (fst (do_save g w s t hd))).
+  { intros s t hd Hz'.
+    destruct (do_save_cases g w s t hd Hf) as [[e E]|(im0 & od & v & Hi & Hlt & Ho & Hd & Hw & E)];
+      rewrite E; cbn [fst snd]; [split; [discriminate|exact B]|]. split; [discriminate|].
+    rewrite Hi, Ho in Hz'.
+    set (c := written g (pi_fmt (pinfo_of g t)) od v (i_aff im0)).
+    destruct (written_dt_aff g (pi_fmt (pinfo_of g t)) od v (i_aff im0)) as [Hdt _]. fold c in Hdt.
+    intros s' im' p' d' Hi' Hc'. unfold img_at in Hi'; cbn [w_imgs w_fs] in *.
+    pose proof (B s' im' p' d' Hi' Hc') as Hb.
+    unfold alias_read in *. destruct (Nat.eq_dec (fid g p') (fid g t)) as [He|Hne].
+    - rewrite He. rewrite nth_upd_same by exact Hlt.
+      assert (Hs : short_for g t od (Some im') = false).
+      { destruct (short_for g t od (Some im')) eqn:E'; [|reflexivity].
+        assert (existsb (short_for g t od) (w_imgs w) = true)
+          by (apply existsb_exists; exists (Some im'); split; [exact (img_at_in w s' im' Hi')|exact E']).
+        congruence. }
+      cbn [short_for] in Hs. rewrite Hc', He, Nat.eqb_refl in Hs. cbn [andb] in Hs.
+      unfold flen in *. cbn [k_dt] in *. rewrite Hdt, Hs. destruct (dtype_eqb od d'); discriminate.
+    - rewrite nth_upd_other by exact Hne. exact Hb. }
   destruct o.
   - (* Load *)
     unfold do_load. destruct (file_at w (fid g p)); [|split; [discriminate|exact B]].
@@ -236,7 +333,7 @@ Proof.
       split; [discriminate|]. apply backed_set_img; [exact B|].
       intros p d E. cbn [with_cache i_cache] in E.
       destruct (aliasable g im) as [[p' d']|] eqn:Ea; [|discriminate]. inversion E; subst p' d'.
-      unfold aliasable in Ea. unfold denote in Hd. destruct (i_src im) as [|p0 d0 mm]; [discriminate|].
+      unfold aliasable in Ea. unfold denote in Hd. destruct (i_src im) as [|p0 d0 k0 mm]; [discriminate|].
       destruct (_ && _ && _ && _); [|discriminate]. inversion Ea; subst. eapply fresh_alias_backed; eauto.
     + split; [discriminate|exact B].
     + pose proof (B s im p d Hi Hc) as Hb.
@@ -249,28 +346,11 @@ Proof.
   - (* SetDtype *)
     destruct (img_at w s) as [im|] eqn:Hi; [|split; [discriminate|exact B]].
     split; [discriminate|]. apply backed_set_img; [exact B|]. intros p d E. cbn [i_cache] in E. eapply B; eauto.
-  - (* Save *)
-    pose proof (save_step_no_crash g w (Save s p) Hf eq_refl) as Hnc. unfold step in Hnc. rewrite Hdead in Hnc.
-    split; [exact Hnc|].
-    + unfold do_save. destruct (img_at w s) as [im|] eqn:Hi; [|exact B].
-      destruct (fid g p <? length (w_fs w))%nat eqn:Hlt; cbn [negb]; [|exact B]. apply Nat.ltb_lt in Hlt.
-      cbn [hazard] in Hz. rewrite Hi in Hz.
-      destruct (out_dtype g im (pi_fmt (pinfo_of g p))) as [od|]; [|exact B].
-      destruct (denote g (w_fs w) im) as [v| |]; [|exact B|].
-      2:{ intros s' im' p' d' Hi' Hc'. cbn [kill w_fs w_imgs img_at] in *. eapply B; eauto. }
-      rewrite Hf, andb_false_r. cbn [fst].
-      intros s' im' p' d' Hi' Hc'. unfold img_at in Hi'; cbn [w_imgs w_fs] in *.
-      pose proof (B s' im' p' d' Hi' Hc') as Hb.
-      unfold alias_read in *. destruct (Nat.eq_dec (fid g p') (fid g p)) as [He|Hne].
-      * rewrite He. rewrite nth_upd_same by exact Hlt.
-        assert (Hs : short_for g p od (Some im') = false).
-        { destruct (short_for g p od (Some im')) eqn:E; [|reflexivity].
-          assert (existsb (short_for g p od) (w_imgs w) = true)
-            by (apply existsb_exists; exists (Some im'); split; [exact (img_at_in w s' im' Hi')|exact E]).
-          congruence. }
-        cbn [short_for] in Hs. rewrite Hc', He, Nat.eqb_refl in Hs. cbn [andb] in Hs.
-        unfold flen in *. cbn [k_dt] in *. rewrite Hs. destruct (dtype_eqb od d'); discriminate.
-      * rewrite nth_upd_other by exact Hne. exact Hb.
+  - (* SetInt *)
+    destruct (img_at w s) as [im|] eqn:Hi; [|split; [discriminate|exact B]].
+    split; [discriminate|]. apply backed_set_img; [exact B|]. intros p d E. cbn [i_cache] in E. eapply B; eauto.
+  - (* Save *) apply (SV s p None). exact Hz.
+  - (* SaveU8 *) apply (SV s p (Some U1)). exact Hz.
   - (* SaveFull *)
     pose proof (save_step_no_crash g w (SaveFull s) Hf eq_refl) as Hnc. unfold step in Hnc. rewrite Hdead in Hnc.
     split; [exact Hnc|].
@@ -297,5 +377,5 @@ Definition no_caches (w : world) : Prop := forall s im, img_at w s = Some im -> 
 Lemma no_caches_backed g w : no_caches w -> backed g w.
 Proof. intros H s im p d Hi Hc. rewrite (H s im Hi) in Hc. discriminate. Qed.
 
-Lemma platform_wf n paths fids fx : cfg_wf (platform_cfg n paths fids fx).
+Lemma platform_wf n paths fids fx sc mx ld : cfg_wf (platform_cfg n paths fids fx sc mx ld).
 Proof. split; [reflexivity|]. intros f; destruct f; vm_compute; discriminate. Qed.
